@@ -30,7 +30,7 @@ TTL_MS = 60000
 def corpus_cases():
     cs = corpus("C07")
     for c in cs:
-        if c.drv in ('dial',):
+        if c.drv in ('dial', 'udpe2e'):
             c.model = False      # end-to-end drivers have no model side (oracle only)
     return cs
 
@@ -237,6 +237,9 @@ def gen_cases(tier, seed):
                 #  wait for its SYNACK timeout: at most one such request per case, in few cases)
                 ops.append("R:%s:%d" % (hx(nmx), r.randint(0, 2)))
         dial(toks + ops, "dial-history")
+    # a UDP association's target (IPv4 and IPv6) end to end: the datagrams arrive at the requested address
+    add("udpe2e", [4, 5, 300], "udp-target-e2e", True, model=False)
+    add("udpe2e", [6, 5, 300], "udp-target-e2e", True, model=False)
     return cs
 
 
@@ -314,6 +317,9 @@ def oracle(c, ir):
         else:
             ok = canon_dest_pair(dest_tok(kind, val), addr)
         return None if ok else "address decoded as %s, sent %s" % (addr[:80], dest_tok(kind, val)[:80])
+    if c.drv == "udpe2e":
+        from . import c15
+        return c15.oracle(c, ir)
     if c.drv == "dial":
         exp = ref_dial(c.args)
         return None if ir.strip() == exp else "dialled %s, requested %s (case: %s)" % (ir.strip(), exp, " ".join(c.args)[:300])
